@@ -378,7 +378,7 @@ func ruleBulkFraming(w *core.World, r *core.Report) {
 		} else {
 			core.EnumPaths(f.Blocks[0], 0, 10000, func(p *core.Path) {
 				ret, ok := p.End.(*ssa.Return)
-				if !ok || len(ret.Results) != 2 || !core.IsNilConst(p.Resolve(ret.Results[1])) || bad != "" {
+				if !ok || len(ret.Results) != 2 || !pathNil(p, ret.Results[1]) || bad != "" {
 					return
 				}
 				v := p.Resolve(ret.Results[0])
